@@ -44,7 +44,17 @@ def run(ck):
     ck.tlc_mc("AggArithMC", "AggArithMC_single.cfg")
     b = ck.go_build("c13", race=True)
     trace, summ = ck.run_driver(b, env_extra={"GORACE": "halt_on_error=0 exitcode=0"}, allow_rc=(0, 2))
-    lines = [l for l in open(trace).read().splitlines() if l.strip()]
+    lines = []
+    for l in open(trace).read().splitlines():
+        if not l.strip():
+            continue
+        try:
+            o = json.loads(l)
+        except ValueError:
+            continue                      # the driver died while writing this line
+        if "ops" not in o:                # the runner's own Crash line (a panic inside go-ipfix killed the driver): a history of its own
+            o = {"ops": [{"kind": o.get("e", "Crash"), "detail": o.get("detail", ""), "inv": 1, "ret": 2}], "monitor": True}
+        lines.append(json.dumps(o))
     mons = monitor_events(summ["stderr_path"])
     lines += [json.dumps(m) for m in mons]
     ok = inconclusive = 0
